@@ -305,6 +305,7 @@ func e3Rules(p *Prog) *RuleSet {
 					return len(args) == 1 && typeShort(args[0].Type()) == "fdo/cose.SignatureAlgorithm"
 				}),
 			boolTrue("kex-available", "kex.Available is true", named("fdo/kex.Available"), 0, nil),
+			boolTrue("key-comparable", "reflect.Type.Comparable() is true", named("reflect.Type.Comparable"), 0, nil),
 			commaOkLookup("cipher-registered", "fdo/kex.ciphers"),
 			commaOkLookup("encalg-registered", "fdo/cose.encryptAlgorithms"),
 			commaOkLookup("encalg-info", "fdo/cose.encryptAlgorithmInfo"),
@@ -1182,6 +1183,18 @@ func (e *E3) boundsObligation(r *Result, rule string, f *Flow, c boundsSite) {
 				}
 			}
 		}
+		if !(okLo && okHi) && hi != nil {
+			// the sliced value was made in this function with a length that is a
+			// linear expression; compare bounds and length as linear forms over
+			// non-negative (length-derived) terms
+			if ln := madeLen(fn, c.in, base); ln != nil {
+				zeroLo := lo == nil
+				loOK := zeroLo || linearLE(m, nil, lo)
+				if loOK && (zeroLo || linearLE(m, lo, hi)) && linearLE(m, hi, ln) {
+					okLo, okHi = true, true
+				}
+			}
+		}
 		emit(okLo && okHi, fmt.Sprintf("slice %s[%s:%s]: low ok=%v high ok=%v", bname, valName(lo), valName(hi), okLo, okHi), false)
 	default:
 		r.table(p, rule, construct, pos, false, "unrecognised bounds-checked construct: undecided")
@@ -1430,6 +1443,8 @@ var stdPreconditions = map[string]stdPre{
 	"encoding/binary.bigEndian.Uint16":      {1, "lenge:2", "binary.BigEndian.Uint16 panics if len(b) < 2"},
 	"encoding/binary.bigEndian.Uint32":      {1, "lenge:4", "binary.BigEndian.Uint32 panics if len(b) < 4"},
 	"encoding/binary.bigEndian.Uint64":      {1, "lenge:8", "binary.BigEndian.Uint64 panics if len(b) < 8"},
+	"reflect.Value.SetMapIndex":             {1, "atom:key-comparable", "reflect.Value.SetMapIndex panics (hash of unhashable type) if the key's dynamic type is not comparable"},
+	"math/big.Int.FillBytes":                {0, "fillbytes", "big.Int.FillBytes panics if the buffer is too small for the value"},
 }
 
 func (e *E3) g4(r *Result, prefix string, f *Flow) {
@@ -1472,6 +1487,10 @@ func (e *E3) g4(r *Result, prefix string, f *Flow) {
 				case strings.HasPrefix(pre.need, "lenge:"):
 					n, _ := strconv.Atoi(strings.TrimPrefix(pre.need, "lenge:"))
 					ok2 = st.Has(fmt.Sprintf("v:lenge:%s:%d", canon(a), n)) || knownLen(m, a) >= int64(n)
+				case strings.HasPrefix(pre.need, "atom:"):
+					ok2 = st.Has(Atom(strings.TrimPrefix(pre.need, "atom:")))
+				case pre.need == "fillbytes":
+					ok2 = len(args) >= 2 && fillBytesFits(m, args[0], args[1])
 				}
 				if reason, listed := reviewedStdPre[p.FuncName(fn)]; !ok2 && listed {
 					r.table(p, rule, key, p.instrPos(call), true, "reviewed: "+reason)
@@ -1597,6 +1616,248 @@ func nonNilValue(p *Prog, v ssa.Value, depth int) bool {
 			}
 		}
 		return any
+	}
+	return false
+}
+
+// linear decomposes an integer expression into const + sum(coef * value).
+func linear(v ssa.Value, depth int) (int64, map[ssa.Value]int64) {
+	terms := map[ssa.Value]int64{}
+	if depth > 6 {
+		terms[v] = 1
+		return 0, terms
+	}
+	v = intRootNoVar(v)
+	if c, ok := constInt(v); ok {
+		return c, terms
+	}
+	if bo, ok := v.(*ssa.BinOp); ok {
+		switch bo.Op {
+		case token.ADD, token.SUB:
+			c1, t1 := linear(bo.X, depth+1)
+			c2, t2 := linear(bo.Y, depth+1)
+			sign := int64(1)
+			if bo.Op == token.SUB {
+				sign = -1
+			}
+			for k, x := range t2 {
+				t1[k] += sign * x
+			}
+			return c1 + sign*c2, t1
+		case token.MUL:
+			if c, ok := constInt(intRootNoVar(bo.X)); ok {
+				c2, t2 := linear(bo.Y, depth+1)
+				for k := range t2 {
+					t2[k] *= c
+				}
+				return c * c2, t2
+			}
+			if c, ok := constInt(intRootNoVar(bo.Y)); ok {
+				c1, t1 := linear(bo.X, depth+1)
+				for k := range t1 {
+					t1[k] *= c
+				}
+				return c * c1, t1
+			}
+		}
+	}
+	terms[v] = 1
+	return 0, terms
+}
+
+// fillBytesFits: the buffer handed to big.Int.FillBytes is large enough for the
+// receiver by construction. Recognised shapes:
+//
+//	new(big.Int).SetBytes(src).FillBytes(x[lo:hi])  with hi-lo == len(src) or == max(..., len(src), ...)
+//	z.Exp(_, _, m) / z.Mod(_, m) ... FillBytes(make([]byte, len(m.Bytes())))   (z < m)
+func fillBytesFits(m *Matcher, recv, buf ssa.Value) bool {
+	// a captured local: use the single value stored into it
+	if u, ok := recv.(*ssa.UnOp); ok && u.Op == token.MUL {
+		if al, ok := u.X.(*ssa.Alloc); ok {
+			var stored ssa.Value
+			n := 0
+			for _, ref := range *al.Referrers() {
+				if st, ok := ref.(*ssa.Store); ok && st.Addr == al {
+					stored = st.Val
+					n++
+				}
+			}
+			if n == 1 {
+				recv = stored
+			}
+		}
+	}
+	if u, ok := buf.(*ssa.UnOp); ok && u.Op == token.MUL {
+		if al, ok := u.X.(*ssa.Alloc); ok {
+			var stored ssa.Value
+			n := 0
+			for _, ref := range *al.Referrers() {
+				if st, ok := ref.(*ssa.Store); ok && st.Addr == al {
+					stored = st.Val
+					n++
+				}
+			}
+			if n == 1 {
+				buf = stored
+			}
+		}
+	}
+	rc, ok := recv.(*ssa.Call)
+	if !ok {
+		return false
+	}
+	switch m.P.calleeOf(rc.Common()).Name {
+	case "math/big.Int.SetBytes":
+		src := rc.Common().Args[1]
+		sl, ok := buf.(*ssa.Slice)
+		if !ok || sl.High == nil {
+			return false
+		}
+		hc, ht := linear(sl.High, 0)
+		lc, lt := int64(0), map[ssa.Value]int64{}
+		if sl.Low != nil {
+			lc, lt = linear(sl.Low, 0)
+		}
+		for k, x := range lt {
+			ht[k] -= x
+		}
+		if hc-lc != 0 {
+			return false
+		}
+		var L ssa.Value
+		for k, x := range ht {
+			if x == 0 {
+				continue
+			}
+			if x != 1 || L != nil {
+				return false
+			}
+			L = k
+		}
+		if L == nil {
+			return false
+		}
+		isLenOfSrc := func(v ssa.Value) bool {
+			l := lenOf(m, intRootNoVar(v))
+			return l != nil && canon(l) == canon(src)
+		}
+		if isLenOfSrc(L) {
+			return true
+		}
+		if c, ok := L.(*ssa.Call); ok {
+			if bi, ok := c.Common().Value.(*ssa.Builtin); ok && bi.Name() == "max" {
+				for _, a := range c.Common().Args {
+					if isLenOfSrc(a) {
+						return true
+					}
+				}
+			}
+		}
+		return false
+	case "math/big.Int.Exp", "math/big.Int.Mod":
+		args := rc.Common().Args
+		mod := args[len(args)-1]
+		mk, ok := buf.(*ssa.MakeSlice)
+		if !ok {
+			return false
+		}
+		l := lenOf(m, intRootNoVar(mk.Len))
+		if l == nil {
+			return false
+		}
+		bc, ok := l.(*ssa.Call)
+		return ok && m.P.calleeOf(bc.Common()).Name == "math/big.Int.Bytes" && canon(bc.Common().Args[0]) == canon(mod)
+	}
+	return false
+}
+
+// madeLen: base (at instruction at) is a slice made in this function — directly,
+// or stored once into the location it is loaded from by a store that dominates
+// the use — and returns the MakeSlice length operand.
+func madeLen(fn *ssa.Function, at ssa.Instruction, base ssa.Value) ssa.Value {
+	if mk, ok := base.(*ssa.MakeSlice); ok {
+		return mk.Len
+	}
+	u, ok := base.(*ssa.UnOp)
+	if !ok || u.Op != token.MUL {
+		return nil
+	}
+	loc := canonAddr(u.X)
+	var only *ssa.Store
+	n := 0
+	for _, b := range fn.Blocks {
+		for _, in := range b.Instrs {
+			if st, ok := in.(*ssa.Store); ok && canonAddr(st.Addr) == loc {
+				only = st
+				n++
+			}
+		}
+	}
+	if n != 1 {
+		return nil
+	}
+	mk, ok := only.Val.(*ssa.MakeSlice)
+	if !ok {
+		return nil
+	}
+	if only.Block() == at.Block() {
+		for _, in := range at.Block().Instrs {
+			if in == ssa.Instruction(only) {
+				return mk.Len
+			}
+			if in == at {
+				return nil
+			}
+		}
+	}
+	if only.Block().Dominates(at.Block()) {
+		return mk.Len
+	}
+	return nil
+}
+
+// linearLE: a <= b holds for all non-negative values of the length-derived
+// terms (a == nil stands for 0): b - a has a non-negative constant and only
+// non-negative coefficients on terms that are themselves non-negative.
+func linearLE(m *Matcher, a, b ssa.Value) bool {
+	bc, bt := linear(b, 0)
+	if a != nil {
+		ac, at := linear(a, 0)
+		bc -= ac
+		for k, x := range at {
+			bt[k] -= x
+		}
+	}
+	if bc < 0 {
+		return false
+	}
+	for k, x := range bt {
+		if x == 0 {
+			continue
+		}
+		if x < 0 || !nonNegTerm(m, k, 0) {
+			return false
+		}
+	}
+	return true
+}
+
+func nonNegTerm(m *Matcher, v ssa.Value, depth int) bool {
+	if depth > 3 {
+		return false
+	}
+	v = intRootNoVar(v)
+	if lenDerivedNonNeg(m, v) {
+		return true
+	}
+	if c, ok := v.(*ssa.Call); ok {
+		if bi, ok := c.Common().Value.(*ssa.Builtin); ok && bi.Name() == "max" {
+			for _, a := range c.Common().Args {
+				if nonNegTerm(m, a, depth+1) {
+					return true
+				}
+			}
+		}
 	}
 	return false
 }
